@@ -75,6 +75,7 @@ type Scenario struct {
 	Flood      *Flood   `json:"flood,omitempty"`
 	Overlap    *Overlap `json:"overlap,omitempty"`
 	RegRace    *RegRace `json:"regrace,omitempty"`
+	WatchdogS  int      `json:"watchdog_s,omitempty"`         // sequential scenarios: override of the 60 s default
 	Readers    int      `json:"readers,omitempty"`            // readers of the SDK MeterProvider that gets installed (default 1)
 	Concurrent bool     `json:"concurrent_collect,omitempty"` // final collections of all readers released together, 3 rounds
 	SlowRegUs  int      `json:"slow_register_us,omitempty"`   // the SDK's RegisterCallback is this slow (widens the hand-over)
@@ -100,6 +101,9 @@ func childMain() {
 	wd := 60
 	if sc.Storm != nil && sc.Storm.WatchdogS > 0 {
 		wd = sc.Storm.WatchdogS
+	}
+	if sc.WatchdogS > 0 {
+		wd = sc.WatchdogS
 	}
 	if sc.RegRace != nil && sc.RegRace.WatchdogS > 0 {
 		wd = sc.RegRace.WatchdogS
@@ -199,7 +203,7 @@ func runSeq(w *world, steps []Step, res *result) {
 				res.Bad = append(res.Bad, "an ErrorHandler obtained before SetErrorHandler does not forward to the handler that was set")
 			}
 		case opProp:
-			if !w.opProp() {
+			if !w.opPropV(s.Arg) {
 				res.Bad = append(res.Bad, "a TextMapPropagator obtained before SetTextMapPropagator does not forward to the installed one")
 			}
 		}
